@@ -129,8 +129,10 @@ func (d *diff) defaultChanged(from, to *schema.Column) bool {
 			}
 		}
 	}
-	// The NULL keyword is not the string 'NULL'.
-	if n1, n2 := strings.EqualFold(d1, "NULL"), strings.EqualFold(d2, "NULL"); n1 || n2 {
+	// The NULL keyword (an expression) is not the string 'NULL' (a literal).
+	_, r1 := schema.UnderlyingExpr(from.Default).(*schema.RawExpr)
+	_, r2 := schema.UnderlyingExpr(to.Default).(*schema.RawExpr)
+	if n1, n2 := r1 && strings.EqualFold(d1, "NULL"), r2 && strings.EqualFold(d2, "NULL"); n1 || n2 {
 		return n1 != n2
 	}
 	x1, err1 := sqlx.Unquote(d1)
